@@ -613,7 +613,19 @@ var serverApplyConfigFunc = func(s []string) error {
 	}
 	timedctx, cancelFunc := context.WithTimeout(context.Background(), appctl.RPCTimeout)
 	defer cancelFunc()
-	_, err = client.SetConfig(timedctx, patch)
+	// SetConfig replaces the stored configuration with its argument,
+	// so the patch has to be merged into the current configuration first.
+	config, err := client.GetConfig(timedctx, &emptypb.Empty{})
+	if err != nil {
+		return fmt.Errorf(stderror.GetServerConfigFailedErr, err)
+	}
+	if err := appctl.MergeServerConfig(config, patch); err != nil {
+		return fmt.Errorf("merge mita server config failed: %w", err)
+	}
+	if err := appctl.ValidateFullServerConfig(config); err != nil {
+		return fmt.Errorf("validate full server config failed: %w", err)
+	}
+	_, err = client.SetConfig(timedctx, config)
 	if err != nil {
 		return fmt.Errorf(stderror.SetServerConfigFailedErr, err)
 	}
